@@ -121,4 +121,4 @@ def run(ctx):
     L = ctx.pick(3, 4)
     ctx.run_parallel('shard_exhaustive', extra=(L,))
     ctx.exhaustive('every sequence of ≤ %d mentions over a 12-mention pool × reverseAttributes on/off (option set rotates over 3)' % L)
-    ctx.run_parallel('shard_random', extra=(ctx.pick(500, 15000),))
+    ctx.run_parallel('shard_random', extra=(ctx.pick(500, 6000),))
